@@ -80,11 +80,16 @@ class Build:
         return _build_harness(self.root, name)
 
     STUB_VARIANTS = {"": [], "all": [], "nopost": ["-DNO_POSTINIT"], "nodtor": ["-DNO_DTOR"],
-                     "neither": ["-DNO_POSTINIT", "-DNO_DTOR"]}
+                     "neither": ["-DNO_POSTINIT", "-DNO_DTOR"],
+                     "noctor": ["-DNO_CTOR"], "noctor_nopost": ["-DNO_CTOR", "-DNO_POSTINIT"],
+                     "noctor_nodtor": ["-DNO_CTOR", "-DNO_DTOR"],
+                     "noctor_neither": ["-DNO_CTOR", "-DNO_POSTINIT", "-DNO_DTOR"]}
 
     def stubmod(self, variant=""):
         """harness/stubmod.c as a shared object.  variant: "" / "all" (all three entry points),
-        "nopost" (no module_post_init), "nodtor" (no module_destructor), "neither"."""
+        "nopost" (no module_post_init), "nodtor" (no module_destructor), "neither";
+        "noctor" (no module_constructor) and "noctor_nopost" / "noctor_nodtor" / "noctor_neither"
+        (no module_constructor and, in addition, what the suffix says)."""
         if variant not in self.STUB_VARIANTS:
             raise BuildError("unknown stub module variant %r" % (variant,))
         if variant in ("", "all"):
